@@ -173,6 +173,9 @@ pub fn process_observed_opt(spec: &Spec, obs: &Observed, utf8_paths_only: bool) 
         return out;
     };
     // ---- product exploration
+    if std::env::var("VG_NOPRODUCT").is_ok() {
+        return out;
+    }
     let l1 = analysis::layer1(spec, &info, g, MAX_PRODUCT_STATES, if utf8_paths_only { Some(true) } else { None });
     out.explored = true;
     out.complete = l1.complete;
